@@ -54,6 +54,9 @@ def build_rows(market):
             if j > 0 and d.isoformat() in hol:
                 continue        # a market holiday: no file has a bar
             o, c = round(max(o, 0.05), dec), round(max(c, 0.05), dec)
+            if market.get('int_closes'):
+                c = float(max(1, round(c)))          # closes quoted in whole units, opens with decimals
+                ratio = 1.0
             a = round(c * ratio, dec + 2)
             if market.get('adj_round') is not None:
                 a = round(c * ratio, market['adj_round'])      # vendor-style: adjusted close quoted to cents
@@ -104,8 +107,8 @@ def rewrite(rows_by_sym, rw):
             new = []
             for r in fut:
                 if [sym, r['date']] in only or (sym, r['date']) in only:
-                    r['open'] = round(r['open'] * 1.37 + 1.0, 4)
-                    r['close'] = round(r['close'] * 0.61 + 2.0, 4)
+                    r['open'] = round((r['open'] or 3.0) * 1.37 + 1.0, 4)
+                    r['close'] = round((r['close'] or 5.0) * 0.61 + 2.0, 4)
                     r['adj'] = r['close']
                 new.append(r)
             out[sym] = keep + new
@@ -148,7 +151,7 @@ class World(object):
 
     extra = None        # optional lower-priority World: the handler asks it where this one has no value yet
 
-    def __init__(self, rows_by_sym, adjust, shuffle_seed=None):
+    def __init__(self, rows_by_sym, adjust, shuffle_seed=None, int_closes=False):
         self.rows = rows_by_sym
         self.adjust = adjust
         self.dir = tempfile.mkdtemp(prefix='qsmon-world-')
@@ -156,7 +159,7 @@ class World(object):
             order = list(range(len(rows)))
             if shuffle_seed is not None:
                 random.Random('%s|%s' % (shuffle_seed, sym)).shuffle(order)
-            datawl.write_csv(os.path.join(self.dir, sym + '.csv'), rows, order)
+            datawl.write_csv(os.path.join(self.dir, sym + '.csv'), rows, order, int_closes=int_closes)
         self.ev = {'EQ:' + sym: datawl.events(rows, adjust) for sym, rows in rows_by_sym.items()}
 
     def quote(self, asset, t):
